@@ -109,14 +109,16 @@ GROUPS = [
     G('C16.O1.triangular', 'h_triangular', 'proved', defs=['C16_EXACT_LIBM'], backends=(SAT, CADICAL), thorough=True,
       native=nat_simple('triangular', 'lo', 'md', 'hi'), note="CBMC's exact sqrt model; symbolic multiply/divide"),
     # ---- O2: bounded unwind n <= 3
-    G('C16.O2.loaded_dice', 'h_loaded_dice', 'bounded-unwind', flags=UNW(4), backends=(Z3, SAT), native=nat_probs('loaded_dice'), expect='failed',
-      note='expected: probabilities summing to 1 - eps (eps <= 1e-3, accepted by sums_to_one) fall through the cumulative search'),
+    G('C16.O2.loaded_dice', 'h_loaded_dice', 'bounded-unwind', defs=['C16_N=2'], flags=UNW(3), native=nat_probs('loaded_dice'), expect='failed',
+      note='n <= 2; expected: probabilities summing to 1 - eps (eps <= 1e-3, accepted by sums_to_one) fall through the cumulative search'),
+    G('C16.O2.loaded_dice_n3', 'h_loaded_dice', 'bounded-unwind', flags=UNW(4), backends=(CADICAL, SAT), native=nat_probs('loaded_dice'), expect='failed', thorough=True,
+      note='n <= 3 (MiniSat and z3 do not finish in 300 s, cadical about 2 min)'),
     G('C16.O2.alias_create', 'h_alias_create', 'bounded-unwind', defs=['C16_N=2'], flags=UNW(3) + CONV, native=nat_probs('alias'), note='n <= 2 (n <= 3 does not finish in 300 s: C16.O2.alias_create_n3, --thorough)'),
     G('C16.O2.alias_create_n3', 'h_alias_create', 'bounded-unwind', flags=UNW(4) + CONV, backends=(SAT, ['--refine-arithmetic'], CADICAL), native=nat_probs('alias'), thorough=True, note='n <= 3'),
     G('C16.O2.alias_sample', 'h_alias_sample', 'bounded-unwind', flags=UNW(4) + CONV, native=None),
     G('C16.O2.binomial', 'h_binomial', 'bounded-unwind', flags=UNW(4), native=nat_binomial),
-    G('C16.O2.hyperexponential', 'h_hyperexp', 'bounded-unwind', repl=[EXP_STUB], flags=UNW(4), backends=(Z3, SAT), native=nat_probs('hyperexp', extra=('ma',)), expect='failed',
-      note='expected: inherits the loaded_dice defect, then reads ma[n]; cmi_random_exp_not_hot replaced by its contract (>= 0, finite)'),
+    G('C16.O2.hyperexponential', 'h_hyperexp', 'bounded-unwind', defs=['C16_N=2'], repl=[EXP_STUB], flags=UNW(3), native=nat_probs('hyperexp', extra=('ma',)), expect='failed',
+      note='n <= 2; expected: inherits the loaded_dice defect, then reads ma[n]; cmi_random_exp_not_hot replaced by its contract (>= 0, finite)'),
     G('C16.O2.hypoexponential', 'h_hypoexp', 'bounded-unwind', repl=[EXP_STUB], flags=UNW(4), native=None,
       note='cmi_random_exp_not_hot replaced by its contract (>= 0, finite)'),
     G('C16.O2.geometric', 'h_geometric', 'bounded-unwind', defs=['C16_HOT_ONLY_EXP'], repl=[EXP_STUB], flags=CONV + ['--float-overflow-check'],
@@ -145,16 +147,16 @@ GROUPS = [
       note='expected: shape <= 1/3 gives d = shape - 1/3 <= 0, c = inf/NaN and a NaN result (documented precondition is shape > 0)'),
     G('C16.O4.std_gamma_ge1', 'h_p_std_gamma', 'bounded-unwind', defs=['C16_SHAPE_MIN=1.0'], repl=[NOR_STUB], flags=PART,
       native=nat_simple('std_gamma', 'shape'), note='shape >= 1 (the range cmb_random_gamma uses)'),
-    G('C16.O4.gamma', 'h_p_gamma', 'bounded-unwind', repl=[NOR_STUB], flags=PART, native=nat_simple('gamma', 'shape', 'scale')),
+    G('C16.O4.gamma', 'h_p_gamma', 'bounded-unwind', repl=[NOR_STUB], flags=PART, native=nat_simple('gamma', 'shape', 'scale'), backends=(SAT, CADICAL), qt=150),
     G('C16.O4.chisquared', 'h_p_chisquared', 'bounded-unwind', repl=[NOR_STUB], flags=PART, native=None, thorough=True),
     G('C16.O4.std_beta', 'h_p_std_beta', 'bounded-unwind', repl=[GAMMA_STUB], flags=PART, native=nat_simple('std_beta', 'a', 'b'),
       note='std_gamma replaced by the contract "> 0 and finite" (listed, UNDISCHARGED strengthening; and C16.O4.std_gamma FAILS for shape <= 1/3)'),
     G('C16.O4.std_beta_weak', 'h_p_std_beta', 'bounded-unwind', defs=['C16_GAMMA_WEAK'], repl=[GAMMA_STUB], flags=PART, native=nat_simple('std_beta', 'a', 'b'), thorough=True, expect='failed',
-      note='std_gamma replaced by exactly the proved contract (>= 0, not NaN): 0/(0+0) and inf/(inf+y) are NaN; not reproducible natively unless std_gamma returns 0 or inf'),
-    G('C16.O4.beta', 'h_p_beta', 'bounded-unwind', repl=[GAMMA_STUB], flags=PART, native=nat_simple('beta', 'a', 'b', 'lo', 'hi'),
-      backends=(SAT, CADICAL, Z3), note='std_gamma replaced by its contract'),
+      note='std_gamma replaced by exactly the proved contract (>= 0, not NaN): 0/(0+0) and inf/(inf+y) are NaN; contract-level counterexample - a native reproduction only happens when the chosen a or b is <= 1/3 (the std_gamma defect)'),
+    G('C16.O4.beta', 'h_p_beta', 'bounded-unwind', repl=[GAMMA_STUB], flags=PART, native=None,
+      backends=(SAT, CADICAL, Z3), note='std_gamma replaced by the contract "> 0 and finite"; a counterexample needs std_beta == 1.0 exactly (gamma outputs y < x * 2^-53), which raw-value injection cannot force: contract-level counterexample, NOT confirmed natively'),
     G('C16.O4.PERT', 'h_p_pert', 'bounded-unwind', repl=[GAMMA_STUB], flags=PART, native=nat_simple('pert', 'lo', 'md', 'hi'),
-      backends=(SAT, CADICAL, Z3), note='std_gamma replaced by its contract'),
+      backends=(SAT, CADICAL, Z3), qt=150, note='std_gamma replaced by the contract "> 0 and finite"'),
 ]
 
 
